@@ -49,7 +49,7 @@ def jobs(tier):
         J.append(Job("arena.alloc.count%d" % c, "h_arena.c", entry="h_alloc", defines={"COUNT_FIX": c, "OFF": 8},
                      unwind=1, unwindset=us(), functions=F_ARENA, timeout=300, min_obligations=15,
                      bounded="count fixed to %d (elem_size, alignment <= 64, limits, block states symbolic); base address 8 mod 64" % c))
-    elems = [8] + ([1, 1000, 4096, 123457] if full else [])
+    elems = [8] + ([1, 1000, 4096, 72] if full else [])
     for e in elems:
         J.append(Job("arena.alloc.elem%d" % e, "h_arena.c", entry="h_alloc", defines={"ELEM_FIX": e, "OFF": 24},
                      unwind=1, unwindset=us(), functions=F_ARENA, timeout=600, min_obligations=15,
@@ -57,7 +57,7 @@ def jobs(tier):
     J.append(Job("arena.release", "h_arena.c", entry="h_release", unwind=1, unwindset=us(), functions=F_REL,
                  timeout=300, min_obligations=10))
     J.append(Job("arena.lemma_align", "h_arena.c", entry="h_lemma_align", unwind=1, functions=[], timeout=300, min_obligations=4))
-    for e in ([1, 8] + ([1000, 4096, 123457] if full else [])):
+    for e in ([1, 8] + ([1000, 4096, 72] if full else [])):
         J.append(Job("arena.construct_ex.elem%d" % e, "h_arena.c", entry="h_construct", defines={"ELEM_FIX": e},
                      unwind=1, unwindset=us(), functions=["parsec_arena_construct_ex"], timeout=600, min_obligations=8,
                      bounded="elem_size fixed to %d or 0 (divisor enumerated); alignment and memory limits: all 64-bit values" % e))
